@@ -9,6 +9,7 @@ import (
 	"github.com/ludo-technologies/pyscn/app"
 	"github.com/ludo-technologies/pyscn/domain"
 	"github.com/ludo-technologies/pyscn/internal/analyzer"
+	"github.com/ludo-technologies/pyscn/internal/config"
 	"github.com/ludo-technologies/pyscn/service"
 	"github.com/spf13/cobra"
 )
@@ -131,6 +132,15 @@ func (c *CheckCommand) runCheck(cmd *cobra.Command, args []string) error {
 			return fmt.Errorf("invalid --select flag: %w", err)
 		}
 	}
+
+	// Resolve the configuration file once, from the analysed path (as analyze
+	// does), so that every check reads the same file whatever the working
+	// directory is
+	resolvedConfigPath, err := config.NewTomlConfigLoader().ResolveConfigPath(c.configFile, args[0])
+	if err != nil {
+		return fmt.Errorf("failed to resolve configuration: %w", err)
+	}
+	c.configFile = resolvedConfigPath
 
 	// Create use case configuration
 	skipComplexity, skipDeadCode, skipClones, skipDeps, skipMockdata := c.determineEnabledAnalyses()
